@@ -128,7 +128,15 @@ def model_spec(draw, cfg):
     float_mode = _one_in(draw, cfg.float_mode)
     tie = (not float_mode) and _one_in(draw, cfg.tie_rich)
 
-    if float_mode:
+    decimal_mode = float_mode and draw(st.booleans())
+    if decimal_mode:
+        # decimal amounts and skills (0.1, 0.3, ...): exact multiples on paper, a rounding residue in binary - a task
+        # runs out of work up to 1e-16 (the library's finish tolerance is 1e-10)
+        work_s = st.sampled_from([0.3, 0.9, 1.0, 1.0, 2.0, 3.0])
+        skill_s = st.sampled_from([None, 0.1, 0.1, 0.2, 0.3, 0.3, 1.0])
+        prog_s = st.sampled_from([0.0, 0.0, 0.0, 0.4])
+        cost_s = st.sampled_from(COST_POOL + [25 / 60.0, 7.5 / 60.0])
+    elif float_mode:
         work_s = st.floats(0.0, 20.0, allow_nan=False, allow_infinity=False)
         skill_s = st.one_of(st.none(), st.floats(0.0, 3.0, allow_nan=False))
         prog_s = st.floats(0.0, 1.0, allow_nan=False)
